@@ -231,21 +231,32 @@ func (r *vSrc) Read(p []byte) (int, error) {
 //
 // verif: mode=int unwind=6 tier=thorough
 func VH_C02_ReadFromFlush() {
-	vReadFromFlush(false)
+	vReadFromFlush(0)
 }
 
 // quick variant: pre-states in which the overflow list is already in use (the order-sensitive case: new data must
 // go behind the list, not into free ring space); all pre-states are explored in the thorough tier
 //
-//verif: mode=int unwind=6
+//verif: mode=int unwind=6 tier=thorough
 func VH_C02_ReadFromFlushSpilled() {
-	vReadFromFlush(true)
+	vReadFromFlush(1)
 }
 
-func vReadFromFlush(spilled bool) {
-	x := vOutboundSetup(vNondetBool("et"))
-	if spilled {
+// quick variant: nothing pending before ReadFrom (in level-triggered mode no write interest is armed then, so a short
+// write in Flush must arm it)
+//
+//verif: mode=int unwind=6
+func VH_C02_ReadFromFlushIdle() {
+	vReadFromFlush(2)
+}
+
+func vReadFromFlush(mode int) {
+	x := vOutboundSetupX(vNondetBool("et"), mode != 2)
+	if mode == 1 {
 		vAssume(elastic.VListInUse(&x.c.outboundBuffer))
+	}
+	if mode == 2 {
+		vAssume(x.lo == 0)
 	}
 	x.k = vNondetInt("k")
 	vAssume(0 <= x.k && x.k <= 4*vMaxLen())
@@ -269,4 +280,28 @@ func vReadFromFlush(spilled bool) {
 		x.after("readfrom", src.total, true)
 	}
 	vReach("C02.readfrom.end")
+}
+
+// more than IOV_MAX (1024) segments handed to Writev on an idle connection: the kernel stub rejects such a vector with
+// EINVAL like writev(2); nothing may be lost and the connection must stay open. (Counts only: the per-byte order
+// oracle of the other harnesses would fork on each of the 1025 segments.)
+//
+//verif: mode=int unwind=6
+func VH_C02_Writev1025() {
+	x := vOutboundSetupX(vNondetBool("et"), false)
+	vAssume(x.lo == 0)
+	s := &vk.S[vConnFD]
+	s.AcceptAll = true // (a kernel that takes only a part is covered by the other Writev harnesses with 1..3 segments)
+	s.WatchK = -1
+	vk.MaxWrites = 3
+	const n = 1025
+	buf := vNondetBytes("p", n)
+	bs := make([][]byte, n)
+	for i := 0; i < n; i++ {
+		bs[i] = buf[i : i+1]
+	}
+	m, err := x.c.Writev(bs)
+	vAssert("C02.writev1025.a_non_failing_kernel_never_closes_the_connection", x.c.opened && err == nil && m == n)
+	vAssert("C02.writev1025.conservation", s.WireLen+x.c.outboundBuffer.Buffered() == n)
+	vReach("C02.writev1025.end")
 }
